@@ -492,7 +492,9 @@ def oracle(case, res, objs):
     last_kind = 'keepalive'
     prev_ka = case['t_main']
     prev_call = case['t_main']
+    longest = 0.0  # longest time without any message on the wire so far
     for i, ((dt, kind, dk), row, (tc, tn)) in enumerate(zip(case['steps'], res['rows'], res['times'])):
+        longest = max(longest, tc - last)
         if kind != 'none':
             last, last_kind = tc, kind
         silence = tc - last
@@ -502,11 +504,12 @@ def oracle(case, res, objs):
                 probs.append(('zero-hold-fired', f'hold time 0: NOTIFICATION 4/0 at step {i}', i))
             elif H > 0 and (cd, sb) != (4, 0):
                 probs.append((f'wrong-notification:{cd}/{sb}', f'hold time {H}: NOTIFICATION {cd}/{sb} from the timers at step {i}', i))
-            elif H > 0 and not silence > H:
+            elif H > 0 and not longest > H:
+                # (a close at a check that follows a message is accepted when the peer HAD been silent for more than H before it)
                 ignored = fields_of(objs[last_kind])[1] != 0
                 sig = 'hold-early:received-update-not-counted' if ignored else 'hold-early'
-                probs.append((sig, f'hold time {H}: closed with 4/0 after a silence of {silence} s '
-                                   f'(last message on the wire: {last_kind} {silence} s before the check)', i))
+                probs.append((sig, f'hold time {H}: closed with 4/0 although the peer was never silent for more than {longest} s '
+                                   f'(last message on the wire: {last_kind}, {silence} s before the check)', i))
             break
         if H > 0 and silence >= H + 1:
             probs.append(('hold-late', f'hold time {H}: still open at a check {silence} s after the last message', i))
